@@ -94,6 +94,17 @@ pub fn check_partition(rep: &mut Report, p: &Ivs, cp: &CharPartition, how: &str,
             bad!("classes", "{}: valid_class_id({}) = {} for {}", how, cid, !want, case);
         }
     }
+    // the three public iterators obey the iterator laws (count, last, nth, partial consumption)
+    rep.inc("iterator_law_checks");
+    if let Err(e) = iter_laws(|| cp.class_ids()) {
+        bad!("classes", "{}: class_ids() of {}: {}", how, case, e);
+    }
+    if let Err(e) = iter_laws(|| cp.picks()) {
+        bad!("picks", "{}: picks() of {}: {}", how, case, e);
+    }
+    if let Err(e) = iter_laws(|| cp.ranges()) {
+        bad!("structure", "{}: ranges() of {}: {}", how, case, e);
+    }
     let picks: Vec<u32> = cp.picks().collect();
     if picks.len() != want_ids.len() {
         bad!("picks", "{}: picks() yields {} characters for {} classes of {}", how, picks.len(), want_ids.len(), case);
